@@ -26,7 +26,7 @@ KtDig == { <<"oaep", "none">>, <<"oaep", "sha1">>, <<"oaep", "sha256">>, <<"oaep
            <<"oaep11", "none">>, <<"oaep11", "sha1">>, <<"oaep11", "sha256">>, <<"oaep11", "sha512">>,
            <<"pkcs1", "none">> }
 KeyCfgs == {"fieldTLS", "fieldMem", "setter", "bothSame", "bothDiff"}
-Shapes == {"ok", "empty", "lt_nonce", "eq_nonce", "lt_tag", "iv_only", "not_multiple", "pad_zero", "pad_big", "all_zero",
+Shapes == {"ok", "empty", "lt_nonce", "eq_nonce", "lt_tag", "iv_only", "not_multiple", "pad_zero", "pad_big", "all_zero", "pad_then_zeros", "pad_block_plus",
            "key_short", "key_garbage", "key_missing", "cipher_badb64"}
 ShapeAlgs == Advertised \cup {"tripledes-cbc", "unknown", "empty"}
 ShapeKts  == {"oaep", "oaep11", "pkcs1", "unknown", "empty"}
@@ -38,7 +38,7 @@ Base == [sub |-> "bind", alg |-> "aes128-gcm", kt |-> "oaep", dig |-> "none", de
 Bind  == { [Base EXCEPT !.sub = "bind", !.alg = a, !.recipient = r, !.validate = v, !.certform = c, !.rootsigned = rs, !.detached = d] :
              a \in BindAlgs, r \in {"absent", "match", "mismatch"}, v \in BOOLEAN, c \in {"valid", "empty", "garbage"},
              rs \in BOOLEAN, d \in BOOLEAN }
-PadShapes == {"pad_zero", "pad_big", "all_zero"}
+PadShapes == {"pad_zero", "pad_big", "all_zero", "pad_then_zeros", "pad_block_plus"}
 Shape == { x \in { [Base EXCEPT !.sub = "shape", !.alg = a, !.kt = k, !.shape = s] : a \in ShapeAlgs, k \in ShapeKts, s \in Shapes } :
              (x.shape \in PadShapes => x.alg \notin GCM) }
 Trip  == { [Base EXCEPT !.sub = "trip", !.alg = a, !.kt = kd[1], !.dig = kd[2], !.detached = d, !.recipient = r, !.keycfg = kc] :
